@@ -419,7 +419,11 @@ theorem _root_.DimModel.concatenate_labels {α : Type} (nan : α) (arrays : List
         simp only [hp, if_true, bind, Except.bind, pure, Except.pure, Bool.false_eq_true, if_false] at h
         concat_tail (a0.dims.idxOf s)
       · simp [hp, bind, Except.bind, pure, Except.pure] at h
-    | pos i =>
+    | pos i0 =>
+      -- a negative position counts from the end
+      obtain ⟨i, hi⟩ : ∃ i, (if i0 < 0 then i0 + (a0.ndim : Int) else i0) = i := ⟨_, rfl⟩
+      simp only [bind, Except.bind, pure, Except.pure] at h
+      simp only [hi] at h
       by_cases hp : (i < 0 || i ≥ (a0.ndim : Int)) = true
       · simp [hp, bind, Except.bind, pure, Except.pure] at h
       · have hlt : i.toNat < a0.axes.length := by
